@@ -934,7 +934,18 @@ impl Chdir for VirtualSystem {
         let inode = self.resolve_existing_file(AT_FDCWD, path, /* follow links */ true)?;
         if matches!(&inode.borrow().body, FileBody::Directory { .. }) {
             let mut process = self.current_process_mut();
-            let new_path = process.cwd.join(path);
+            // Like a real kernel, remember the canonical pathname: `.` and `..`
+            // components must not show up in the result of `getcwd`.
+            let mut new_path = PathBuf::new();
+            for component in process.cwd.join(path).components() {
+                match component {
+                    crate::path::Component::CurDir => (),
+                    crate::path::Component::ParentDir => {
+                        new_path.pop();
+                    }
+                    other => new_path.push(other.as_unix_str()),
+                }
+            }
             process.chdir(new_path);
             Ok(())
         } else {
